@@ -2,6 +2,7 @@
 C08 — PyTree[L] accepts exactly the trees all of whose leaves match L.
 -/
 import JaxVerif.Spec.Trees
+import JaxVerif.Generated.Skeleton
 import JaxVerif.Spec.Calls
 import JaxVerif.Lemmas.Trees
 
@@ -50,6 +51,12 @@ theorem C08_arrays (sk : Skel) (cls : String) (a : Ann) (ha : a.transparent = fa
 theorem C08_reject_binds_nothing (sk : Skel) (l : LType) (s : Option String) (x : Obj) (st : CState)
     (h : (checkL sk (.pytree l s) x st).2 = .F) : (checkL sk (.pytree l s) x st).1.memo = st.memo :=
   pytree_reject_memo sk l s x st h
+
+/-- the source read today asks the is-leaf test at every node of every flattening of the checked object (the
+    model's `leavesWith` takes the test as given), releases the flattening flag in a `finally` and re-entrantly -/
+theorem C08_generated_good :
+    Generated.flattenPassesIsLeaf = true ∧ Generated.flattenInFinally = some true ∧
+    Generated.flattenRestores = some true := by decide
 
 /-! non-vacuity -/
 private def sk0 : Skel := ⟨.baseException, .baseException, true, true, true, true⟩
